@@ -3,16 +3,17 @@ From VJ Require Import Model.Str Model.Json Model.Ast Lemmas.NodeInd.
 
 (* JSXMemberExpression in expression position prints as a plain member chain and is allowed;
    every other JSX node kind is not *)
+Definition jsx_ty (t : str) : bool :=
+  sq "JSXOpeningElement" t || sq "JSXClosingElement" t || sq "JSXOpeningFragment" t
+  || sq "JSXClosingFragment" t || sq "JSXElement" t || sq "JSXFragment" t
+  || sq "JSXAttribute" t || sq "JSXNamespacedName" t || sq "JSXExpressionContainer" t
+  || sq "JSXEmptyExpression" t || sq "JSXText" t || sq "JSXSpreadChild" t.
+
 Definition is_jsx_node (n : node) : bool :=
   match n with
   | JsxE _ _ _ _ _ _ | JsxF _ | JAttr _ _ | JNs _ _ | JExprC _ | JEmpty | JText _ _
   | JSpreadChild _ => true
-  | NObj _ =>
-      let t := ntype n in
-      sq "JSXOpeningElement" t || sq "JSXClosingElement" t || sq "JSXOpeningFragment" t
-      || sq "JSXClosingFragment" t || sq "JSXElement" t || sq "JSXFragment" t
-      || sq "JSXAttribute" t || sq "JSXNamespacedName" t || sq "JSXExpressionContainer" t
-      || sq "JSXEmptyExpression" t || sq "JSXText" t || sq "JSXSpreadChild" t
+  | NObj _ => jsx_ty (ntype n)
   | _ => false
   end.
 
@@ -49,3 +50,76 @@ Fixpoint ready (n : node) {struct n} : bool :=
   | JText _ _ => true
   | _ => false
   end.
+
+(* ---- the grammar of a parsed module, as far as JSX is concerned ------------------------- *)
+(* where a node sits: in an ordinary (expression / statement / field) position, in the attribute
+   list of a JSX element, or in the child list of a JSX element or fragment *)
+Inductive pos := PExpr | PAttr | PChild.
+Definition isE (p : pos) : bool := match p with PExpr => true | _ => false end.
+Definition isA (p : pos) : bool := match p with PAttr => true | _ => false end.
+Definition isC (p : pos) : bool := match p with PChild => true | _ => false end.
+Definition is_jempty (n : node) : bool := match n with JEmpty => true | _ => false end.
+
+(* [gram p n]: JSX node kinds occur in [n] only where the JSX grammar puts them - attributes in
+   attribute lists, text / containers / spread children in child lists, elements and fragments
+   in expression or child position or as attribute values - and the positions the traversal
+   does not enter (literal raws, type arguments, type parameters, return types, element names)
+   hold no JSX at all.  Every tree the parser produces satisfies it; the correspondence run
+   re-checks that on every input. *)
+(* a generic object starts with its type tag (or has none), and the tag is not a JSX kind *)
+Definition obj_head_ok (l : list node) : bool :=
+  match l with
+  | [] => true
+  | Field kt v :: _ =>
+      if sq "type" kt then match v with NScalar (JStr ty) => negb (jsx_ty ty) | _ => false end
+      else true
+  | _ :: _ => false
+  end.
+
+Fixpoint gram (p : pos) (n : node) {struct n} : bool :=
+  let gl := fix gl (q : pos) (l : list node) : bool :=
+              match l with [] => true | x :: r => gram q x && gl q r end in
+  match n with
+  | NScalar _ | Ident _ _ _ | IdName _ | Bool _ | Null | Hole => isE p
+  | NArr l => isE p && gl PExpr l
+  | NObj l => isE p && obj_head_ok l && gl PExpr l
+  | Field _ v => isE p && gram PExpr v
+  | BIdent _ _ _ t => isE p && gram PExpr t
+  | Str _ w | Num _ w => isE p && jsx_free w
+  | Arr l | Obj l | Block _ l => isE p && gl PExpr l
+  | Elem _ e | Computed e | Paren e | Unary _ e => isE p && gram PExpr e
+  | Spread e => negb (isC p) && gram PExpr e
+  | KV a b | Assign _ a b | Bin _ a b | Member a b => isE p && gram PExpr a && gram PExpr b
+  | Cond a b c => isE p && gram PExpr a && gram PExpr b && gram PExpr c
+  | Call _ _ f a t => isE p && gram PExpr f && gl PExpr a && jsx_free t
+  | Arrow _ ps b _ _ tp rt => isE p && gl PExpr ps && gram PExpr b && jsx_free tp && jsx_free rt
+  | JsxE nm ats _ _ ch _ => negb (isA p) && jsx_free_name nm && gl PAttr ats && gl PChild ch
+  | JsxF ch => negb (isA p) && gl PChild ch
+  | JAttr _ v =>
+      isA p &&
+      match v with
+      | NScalar JNull => true
+      | Str _ w => jsx_free w
+      | JExprC e => negb (is_jempty e) && gram PExpr e
+      | JsxE _ _ _ _ _ _ | JsxF _ => gram PExpr v
+      | _ => false
+      end
+  | JExprC e => isC p && (is_jempty e || gram PExpr e)
+  | JSpreadChild e => isC p && gram PExpr e
+  | JText _ _ => isC p
+  | JEmpty | JNs _ _ => false
+  end.
+
+Lemma gram_list q l :
+  (fix gl (q : pos) (l : list node) : bool :=
+     match l with [] => true | x :: r => gram q x && gl q r end) q l
+  = forallb (gram q) l.
+Proof. induction l as [|x r IH]; [reflexivity|]. cbn [forallb]. rewrite <- IH. reflexivity. Qed.
+
+(* a parsed module: { type, body: [...], interpreter } *)
+Definition module_shape (m : node) : bool :=
+  match m with
+  | NObj [Field _ (NScalar _); Field _ (NArr _); Field _ (NScalar _)] => true
+  | _ => false
+  end.
+
